@@ -12,7 +12,7 @@ CHECKS = {
              "writer, staleness ticks, death); TLC checks exhaustively that the protocol without the named deviations satisfies mutual exclusion / release safety / single "
              "takeover, and enumerates every distinct violating state of the protocol as coded with its schedule. Those schedules and seeded random ones (2..4 contenders, "
              "single-backend-call granularity) are forced on real lock objects through a gate at the afero.Fs boundary on MemMapFs and the OS filesystem; the recorded "
-             "executions are judged by TLC (LockTrace.tla on the shared monitor LockMonitor.tla), which assigns causal signatures.",
+             "executions are judged by TLC (LockTrace.tla on the shared monitor LockMonitor.tla), which assigns causal signatures. A GiveUp action (a contender that stops waiting; sensitivity GiveUpCleans) is replayed with a short LockWithTimeout, the random scheduler holds a contender between the two reads of one staleness decision while the holder releases, and a real-time stage (take-over of a dead holder's lock, then hold; one heartbeat write failing) is judged by LockTimedTrace.tla.",
         note="Trusted: TLC, the gate's attribution of backend calls to contenders (API function names on the call stack), model time for staleness (Stat re-stamped by the gate). "
              "Known findings (protocol-level, see known_findings.json) are reported as KNOWN-FINDING; any other signature is a violation.",
         technique="TLA+ spec + TLC exhaustive; TLC-generated schedules forced on real code through an afero.Fs gate; TLC judges recorded traces"),
@@ -107,7 +107,7 @@ CHECKS = {
              "termination under fairness, own-result-before-deadline, timeout only after the action ended, context triggered on exit, once-per-argument, "
              "registered-before-Cancel-is-invoked; every terminated behaviour is replayed with scripted instants against the real functions; a sweep of "
              "completion instants across the deadline (+-2 ms, 0..16 busy goroutines) is validated by TLC by inferring the unlogged steps, and concurrent "
-             "cancel-store / Parallelise histories are validated by trace specifications.",
+             "cancel-store / Parallelise histories are validated by trace specifications. CtxRunner.tla also has the cancellation of the caller's store and actions that stop quietly; recorded microsecond sweeps of both runner families are validated with inferred (silent) steps by TimeoutRunnerTrace.tla / CtxRunnerTrace.tla; an inductive invariant of the cancel store (CancelStoreInd.tla) is discharged by Apalache for executions of any length. Growth stages (ParallelCheck.tla, Scheduler.tla) are replayed and reported as observations only.",
         note="Trusted: TLC, wall-clock scripting with 25 ms spacing, a 4 ms (+ measured scheduling latency) margin inside which either order of deadline and completion is accepted.",
         technique="TLA+ specs + TLC exhaustive (safety, deadlock, liveness); behaviour replay; TLC trace validation with inferred silent steps"),
     "C13": dict(
@@ -116,7 +116,7 @@ CHECKS = {
              "appends) and an optional ring buffer with drop accounting; TLC checks ExactlyOnceIntact / EveryMember / DropsAccounted / NoSilentLoss exhaustively for 3 producers x 2 messages "
              "(the shared-lock configuration must violate). Every constructor of utils/logs is then driven in its own process of the -race harness by 2..32 producers sending checksummed "
              "messages on both streams (with concurrent SetLogSource / Append in every second round); the sinks are parsed back and the counts, the reported drops and the race-detector "
-             "reports with utils/logs frames are judged by TLC (LogSinkTrace.tla).",
+             "reports with utils/logs frames are judged by TLC (LogSinkTrace.tla). LogComposite.tla (composites over one caller-owned member list, Log / Append histories, sensitivity SharedBacking) is replayed through Append and AppendLogger and judged by LogCompositeTrace.tla.",
         note="Trusted: TLC, the Go race detector as an observation (the Go memory model is not modelled), the harness's goroutine-safe sinks.",
         technique="TLA+ sink/lock/ring specification + TLC exhaustive check; real loggers under the race detector; TLC trace judgement"),
     "C14": dict(
@@ -143,7 +143,7 @@ CHECKS = {
              "with a crash at any step and an ignorable side-file failure; TLC checks that a successful Fetch installs one complete stored version and that a successful Store is what "
              "the next Fetch returns, and (sensitivity) finds the stale-hash counterexample when the failure is ignored. On the real caches (mutable and immutable, MemMapFs and OS) "
              "Store is interrupted at every backend call by an injected error or by the death of the client, the entry is stale-cleaned and fetched; concurrent clients run under gated "
-             "random schedules; TLC judges all recorded observations with the same monitor.",
+             "random schedules; TLC judges all recorded observations with the same monitor. Overlapping Stores of the lock-based cache are ordered by their critical sections (LockAcquired events); directed sweeps add a failing Store handing the lock over, CleanEntry of the immutable cache stopped at every backend call around a complete Store, a waiter timing out on the entry lock while a third client stores, and a re-Store of the earlier content after an interrupted Store.",
         note="Trusted: TLC, the gate's fault injection at the afero.Fs boundary, tree comparison of the destination with the stored versions; MemMapFs breakdowns void a scenario.",
         technique="TLA+ spec + TLC exhaustive; fault/crash sweep over every backend call of the real Store; TLC trace validation"),
     "C17": dict(
@@ -151,7 +151,7 @@ CHECKS = {
         text="LockFileTimed.tla (discrete time, period P, writer lateness J, death at every instant) is checked by TLC for live-never-stale and dead-becomes-stale, "
              "with a sensitivity run (J >= P must fail). Every death point of the real holder (after each backend call of the acquisition and of the first heartbeat "
              "cycles, both backends) is forced through the gate in model time, and real-time rounds on the OS filesystem (holds of 6..300 periods under load, 1..8 "
-             "polling observers, death and recovery) are recorded with every sign of life time-stamped at the backend boundary; TLC judges both against the timed rules.",
+             "polling observers, death and recovery) are recorded with every sign of life time-stamped at the backend boundary; TLC judges both against the timed rules. The timed model also has a failing heartbeat write, a holder sweeping over its own lock and an observer whose listing fails (each with a sensitivity configuration); the real-time rounds inject them, death points of the heartbeat writer are taken at every backend call, and a lock won by take-over is held and watched.",
         note="Trusted: TLC, monotonic time stamps taken at the afero.Fs boundary, a harness-run control heartbeat as the reference that separates library lateness from host overload "
              "(overloaded windows are discarded and counted, never reported), 60 ms slack on detection of a dead holder.",
         technique="TLA+ timed spec + TLC exhaustive; gate-forced death points; TLC trace validation of real-time recordings"),
@@ -176,7 +176,7 @@ CHECKS = {
         text="TLC enumerates every history of <=4 calculations (contents of <=3 chunks, ok / fail@k / cancel@k) on one hasher object and checks that "
              "an emitted digest is the content of its own call; the histories are replayed on real hasher objects of the 6 algorithms (reader, in-memory "
              "file, OS file; chunk scales around the 32 KiB copy buffer) against reference digests; recorded histories with contents up to 2^20 bytes "
-             "are validated by TLC.",
+             "are validated by TLC. FileDigest.tla (histories of one path: same-length contents, modification time put back, removal; sensitivity Memoise) is replayed through FS.FileHash on both backends, directly and through a symbolic link.",
         note="Trusted: TLC, fresh instances of the standard/reference hash packages as reference, the scripted reader of the harness.",
         technique="TLA+ spec + TLC exhaustive; behaviour replay into code; TLC trace validation"),
 }
